@@ -1,3 +1,5 @@
 import MinterProofs.Ledger
 import MinterProofs.Moves
 import MinterProofs.Props.C01
+import MinterProofs.Props.C04
+import MinterProofs.Props.C05
